@@ -142,6 +142,9 @@ pub enum Driver {
     /// streaming use as the async wrapper does it: `next()` on through temporary EOFs until `None` with the
     /// source exhausted, then `emit_master_end_when_eof(true)`, then `next()` until `None`
     StreamingThenClose,
+    /// `next()` until the first error, `try_recover()`, then `set_max_allowable_tag_size(Some(limit))`, then
+    /// `next()` until `None` or an error: a limit that is set late applies to the very next tag
+    RecoverThenLimit(usize),
 }
 
 impl Driver {
@@ -151,6 +154,7 @@ impl Driver {
             Driver::Recovering { max_errors, extra } => json!({"recovering": max_errors, "extra": extra}),
             Driver::Streaming { extra } => json!({"streaming": extra}),
             Driver::StreamingThenClose => json!({"streaming_then_close": true}),
+            Driver::RecoverThenLimit(m) => json!({"recover_then_limit": m}),
             Driver::Script(ops) => json!({"script": ops.iter().map(|o| o.to_s()).collect::<Vec<_>>().join("")}),
         }
     }
@@ -159,6 +163,8 @@ impl Driver {
             Ok(Driver::UntilEnd { extra: e.as_u64().ok_or("until_end")? as usize })
         } else if let Some(e) = j.get("recovering") {
             Ok(Driver::Recovering { max_errors: e.as_u64().ok_or("recovering")? as usize, extra: j.get("extra").and_then(|v| v.as_u64()).unwrap_or(0) as usize })
+        } else if let Some(m) = j.get("recover_then_limit") {
+            Ok(Driver::RecoverThenLimit(m.as_u64().ok_or("recover_then_limit")? as usize))
         } else if j.get("streaming_then_close").is_some() {
             Ok(Driver::StreamingThenClose)
         } else if let Some(e) = j.get("streaming") {
@@ -462,6 +468,31 @@ pub fn run_reader_t<T: Spec>(s: &ReaderSetup) -> RTrace {
                         break;
                     }
                     extra_left -= 1;
+                }
+            }
+        }
+        Driver::RecoverThenLimit(limit) => {
+            let mut recovered = false;
+            #[allow(clippy::never_loop)]
+            loop {
+                let ev = do_next(&mut it);
+                let is_err = matches!(ev, Ev::Err(_));
+                let stop = !matches!(ev, Ev::Tag(..));
+                push!(ev);
+                if is_err && !recovered {
+                    recovered = true;
+                    let r = do_recover(&mut it);
+                    let ok = matches!(r, Ev::RecoverOk);
+                    push!(r);
+                    if !ok {
+                        break;
+                    }
+                    it.set_max_allowable_tag_size(Some(*limit));
+                    push!(Ev::Cfg);
+                    continue;
+                }
+                if stop {
+                    break;
                 }
             }
         }
